@@ -194,6 +194,7 @@ class FieldMappingTransformationBase(DetectionItemTransformation):
                 # (e.g. keyword-to-field mapping that adds wildcards, field-reference remapping)
                 # always assign a new list to detection_item.value.
                 value_before = detection_item.value
+                original_value_before = detection_item.original_value
                 if (
                     self.processing_item is None
                     or self.processing_item.match_detection_item(detection_item)
@@ -203,6 +204,19 @@ class FieldMappingTransformationBase(DetectionItemTransformation):
                         # with the current values. Disable conversion to prevent to_plain()
                         # from producing stale output.
                         r.disable_conversion_to_plain()
+                    elif isinstance(r, SigmaDetection):
+                        # Mapping to multiple fields: the new detection items were created from
+                        # the already modified values. Their original values are the ones of the
+                        # replaced detection item as long as its value list was not replaced.
+                        for new_item in r.detection_items:
+                            if isinstance(new_item, SigmaDetectionItem):
+                                if (
+                                    detection_item.value is value_before
+                                    and original_value_before is not None
+                                ):
+                                    new_item.original_value = original_value_before.copy()
+                                else:
+                                    new_item.disable_conversion_to_plain()
                     detection.detection_items[i] = r
                     self.processing_item_applied(r)
 
